@@ -38,6 +38,10 @@ struct TM { TM() noexcept; TM(const TM&); TM(TM&&); TM& operator=(const TM&); TM
 struct MO { MO() noexcept; MO(const MO&) = delete; MO(MO&&) noexcept; MO& operator=(const MO&) = delete; MO& operator=(MO&&) noexcept; ~MO(); RELOPS(MO) };
 struct NDC { NDC(int) noexcept; NDC(const NDC&) noexcept; NDC(NDC&&) noexcept; NDC& operator=(const NDC&) noexcept; NDC& operator=(NDC&&) noexcept; ~NDC(); RELOPS(NDC) };
 struct TD { TD(); TD(const TD&) noexcept; TD(TD&&) noexcept; TD& operator=(const TD&) noexcept; TD& operator=(TD&&) noexcept; ~TD(); RELOPS(TD) };
+struct SW { SW() noexcept; SW(const SW&); SW& operator=(const SW&); ~SW(); friend void swap(SW&, SW&) noexcept; RELOPS(SW) };
+struct TS { TS() noexcept; TS(const TS&) noexcept; TS(TS&&) noexcept; TS& operator=(const TS&) noexcept; TS& operator=(TS&&) noexcept; ~TS(); friend void swap(TS&, TS&); RELOPS(TS) };
+static_assert(!std::is_nothrow_move_constructible<SW>::value && std::is_move_constructible<SW>::value && std::is_nothrow_move_constructible<TS>::value, "fixtures SW / TS");
+namespace c05_swapcheck { using std::swap; static_assert(noexcept(swap(std::declval<SW&>(), std::declval<SW&>())) && !noexcept(swap(std::declval<TS&>(), std::declval<TS&>())), "fixtures SW / TS: ADL swap"); }
 struct IL { IL(std::initializer_list<int>, int); IL(int, int); };
 static_assert(std::is_trivially_copyable<Triv>::value && std::is_nothrow_move_constructible<NT>::value && !std::is_nothrow_copy_constructible<NT>::value
               && !std::is_nothrow_move_constructible<TM>::value && !std::is_copy_constructible<MO>::value && !std::is_default_constructible<NDC>::value
@@ -57,7 +61,7 @@ template <class V> constexpr bool nothrow_free_swap() { using std::swap; return 
 
 CPP_KIND = {"int": "int", "long": "long", "char": "char", "float": "float", "double": "double", "bool": "bool",
             "cstr": "const char*", "string": "std::string", "Triv": "Triv", "NA": "NA", "TA": "TA", "NT": "NT", "TM": "TM", "MO": "MO",
-            "NDC": "NDC", "TD": "TD"}
+            "NDC": "NDC", "TD": "TD", "SW": "SW", "TS": "TS"}
 ARG_EXPR = {"int": "65", "long": "66L", "char": "'C'", "float": "1.5f", "double": "2.5", "bool": "true",
             "cstr": 'static_cast<const char*>("abc")', "string": 'std::string("abc")'}
 TRAIT_EXPR = {
